@@ -58,4 +58,41 @@ ITEMS = [
                      decreases='bytes@.len() - i'),
          },
          canaries=['C17:bytes_are_terminal_safe_same_length_rest_untouched']),
+    # ---- ring reader window trimmed to UTF-8 boundaries (C17: reader snippets) ----
+    dict(src='src/ring_reader.rs', path='fn is_utf8_continuation', props=['C17', 'C01'],
+         proofs=[dict(at='start', text='lemma_cont_bits(b);')],
+         ensures=[('continuation_bytes_are_10xxxxxx', 'r == is_cont(b)')], canaries=['continuation_bytes_are_10xxxxxx']),
+    dict(src='src/ring_reader.rs', path='fn utf8_expected_len', props=['C17', 'C01'],
+         rewrites=[(r'\(0x([0-9A-F]{2})\.\.=0x([0-9A-F]{2})\)\.contains\(&lead\)', r'(0x\1 <= lead && lead <= 0x\2)', 3, 'R24')],
+         ensures=[('lead_byte_table', 'r == (match expected_len(lead) { Some(n) => Some(n as usize), None => None::<usize> })')], canaries=['lead_byte_table']),
+    dict(src='src/ring_reader.rs', path='fn trim_incomplete_utf8_tail', props=['C17', 'C01'],
+         ensures=[('C17:only_an_incomplete_last_code_point_is_dropped', 'final(bytes)@.len() <= old(bytes)@.len() && final(bytes)@ == old(bytes)@.take(final(bytes)@.len() as int)'),
+                  ('C17:the_window_no_longer_stops_inside_a_code_point', 'tail_settled(final(bytes)@)')],
+         proofs=[dict(before='let expected = match utf8_expected_len(lead) {', text='assert(settled_at(bytes@, lead_idx as int) == (match expected_len(lead) { Some(n) => bytes@.len() - lead_idx >= n, None => true }));'),
+                 dict(before='bytes.truncate(lead_idx);', ghost=True, text='let ghost bt = bytes@;'),
+                 dict(after='bytes.truncate(lead_idx);', text='assert(bytes@ =~= bt.take(lead_idx as int));')],
+         loops={1: dict(header=r'^loop$', invariant=[('prefix', 'bytes@.len() <= old(bytes)@.len() && bytes@ == old(bytes)@.take(bytes@.len() as int)')],
+                        decreases='bytes@.len()'),
+                2: dict(invariant=[('looking_back', '''i <= bytes@.len() && cont <= 3 && cont == bytes@.len() - i && bytes@.len() > 0
+                            && (forall|j: int| i <= j < bytes@.len() ==> is_cont(#[trigger] bytes@[j]))''')],
+                        ensures=[('stopped', 'i == 0 || cont == 3 || !is_cont(bytes@[i - 1])')],
+                        decreases='i')},
+         canaries=['C17:the_window_no_longer_stops_inside_a_code_point']),
+    dict(src='src/ring_reader.rs', path='fn trim_to_utf8_boundaries_with_line', props=['C17', 'C01'],
+         rewrites=[(r'bytes\.drain\(\.\.cut\);', 'vec_drain_prefix(&mut bytes, cut);', 1, 'R8')],
+         proofs=[dict(at='start', ghost=True, text='let ghost b0 = bytes@; let ghost l0 = start_line;'),
+                 dict(before='let mut cut = 0usize;', text='assert(b0.skip(0) =~= b0);'),
+                 dict(before="if bytes[cut] == b'\\n' {", text='lemma_cont_bits(bytes@[cut as int]); assert(b0.skip(cut as int).skip(1) =~= b0.skip(cut + 1)); assert(b0.skip(cut as int)[0] == b0[cut as int]);'),
+                 dict(after_loop=1, text='if cut < b0.len() { assert(b0.skip(cut as int)[0] == b0[cut as int]); } else { assert(b0.skip(cut as int).len() == 0); }')],
+         ensures=[('C17:leading_continuation_bytes_are_dropped_and_counted', '''({ let cut = lead_conts(bytes@);
+                    r.2@.len() <= bytes@.len() - cut && r.2@ == bytes@.subrange(cut as int, (cut + r.2@.len()) as int)
+                    && (r.2@.len() > 0 ==> !is_cont(r.2@[0]))
+                    && r.0 == (if start_offset + cut > u64::MAX { u64::MAX } else { (start_offset + cut) as u64 })
+                    && r.1 == start_line })'''),
+                  ('C17:the_window_no_longer_stops_inside_a_code_point', 'tail_settled(r.2@)')],
+         loops={1: dict(invariant=[('leading', '''cut <= bytes@.len() && bytes@ == b0 && start_line == l0 && (forall|j: int| 0 <= j < cut ==> is_cont(#[trigger] b0[j]))
+                            && lead_conts(b0) == cut + lead_conts(b0.skip(cut as int))''')],
+                        ensures=[('first_kept_byte', 'cut == bytes@.len() || !is_cont(bytes@[cut as int])')],
+                        decreases='bytes@.len() - cut')},
+         canaries=['C17:leading_continuation_bytes_are_dropped_and_counted']),
 ]
